@@ -2,6 +2,7 @@
    ExtrOcamlBasic only: bool, option, list, prod, unit map to OCaml's;
    N / positive / nat stay the extracted inductive types. *)
 From EP Require Import Base.Bytes Checksum.Spec Checksum.Model.
+From EP Require Import Checksum.ProtoTypes Checksum.ProtoSpec Checksum.Proto.
 From Coq Require Import Extraction ExtrOcamlBasic.
 Extraction Language OCaml.
 Extraction "m_c09.ml"
@@ -10,4 +11,16 @@ Extraction "m_c09.ml"
   U32.add_slice U32.ones_complement U32.ones_complement_with_no_zero
   to_be16v sum_pieces64 sum_pieces32
   checksum64 checksum32 checksum64_no_zero checksum32_no_zero
-  rfc1071 pieces_bytes.
+  rfc1071 pieces_bytes
+  (* protocol level: model functions ... *)
+  ipv4_calc_header_checksum
+  udp_calc_checksum_ipv4_raw udp_calc_checksum_ipv6_raw udp_with_ipv4_checksum udp_with_ipv6_checksum
+  tcp_calc_checksum_ipv4_raw tcp_calc_checksum_ipv6_raw
+  tcp_header_slice_from_slice tcp_hslice_calc_checksum_ipv4_raw tcp_hslice_calc_checksum_ipv6_raw
+  tcp_slice_calc_checksum_ipv4 tcp_slice_calc_checksum_ipv6
+  icmp4_calc_checksum icmp6_calc_checksum icmp6_is_checksum_valid igmp_calc_checksum
+  update_checksum_ipv4 update_checksum_ipv6
+  (* ... and the RFC side (printed next to the model value, informational: the
+     oracle of the check is the independent Python computation) *)
+  ipv4_header_checksum_spec udp4_spec udp6_spec tcp4_spec tcp6_spec tcp4_raw_spec tcp6_raw_spec
+  icmp4_spec icmp6_spec icmp6_valid_spec igmp_spec update4_spec update6_spec.
